@@ -88,6 +88,8 @@ pub struct Interp<'c, K: KeyT, V: ValT> {
     /// property charged for unexpected panics
     panic_prop: &'static str,
     /// max ratio (per-mille) allocation_size / bound, C13
+    /// per slot: the map was never given an element or a capacity (C03: it must own no block)
+    pristine: [bool; 2],
     pub c13_bound: usize,
     pub c13_peak_live: usize,
     /// a destructor panic was injected: leaked elements / blocks are allowed from now on
@@ -156,6 +158,7 @@ where
             sweep_every: case.h_or("sweep", 8) as usize,
             steps_since_sweep: 0,
             panic_prop: if chaos { "C05" } else { "C02" },
+            pristine: [case.h("cap") == 0, case.h("b_cap") == 0],
             c13_bound: 0,
             c13_peak_live: 0,
             leak_ok: false,
@@ -1279,6 +1282,9 @@ where
             if !d.is_singleton {
                 expected_blocks += 1;
                 expected_bytes += d.predicted_block().1;
+                if self.pristine[si.min(1)] {
+                    bad!("C03", "unallocated-collection-owns-block", "a map that was never given an element or a capacity owns a block of {} buckets", d.buckets());
+                }
             }
             let asz = s.map.allocation_size();
             let want_sz = if d.is_singleton { 0 } else { d.predicted_block().1 };
@@ -1457,6 +1463,7 @@ where
         let counts0 = world::counts();
         let r = catch_unwind(AssertUnwindSafe(|| self.exec(op)));
         let counts_after_exec = world::counts();
+        self.track_pristine(op);
         match r {
             Err(payload) => {
                 let msg = world::last_panic_message().unwrap_or_else(|| "<no message>".into());
@@ -1531,6 +1538,25 @@ where
         }
         self.c13_track();
         Ok(())
+    }
+
+    /// Which operations cannot hand the current map an element or a capacity: after only such
+    /// operations a map created with capacity 0 must still own no block ("a collection that was never
+    /// given an element or a capacity owns no block at all").
+    fn track_pristine(&mut self, op: &Op) {
+        let cur = self.cur.min(1);
+        let other = cur ^ 1;
+        let a = op.a;
+        match op.code {
+            ops::GET | ops::GET_MUT | ops::REMOVE | ops::CLEAR | ops::SHRINK_TO_FIT | ops::RETAIN | ops::ITER | ops::DRAIN | ops::EXTRACT_IF | ops::SWAP
+            | ops::EQ_CHECK | ops::GET_MANY_MUT | ops::RAW_ENTRY_RO | ops::REMOVE_NTH | ops::GET_ABSENT | ops::REMOVE_RUN | ops::REMOVE_ALL_BUT => {}
+            ops::EXTEND if a[1] % 25 == 0 => {}
+            ops::RESERVE | ops::TRY_RESERVE if a[0] % 97 == 0 => {}
+            ops::CLONE_TO_OTHER => self.pristine[other] = self.pristine[cur],
+            ops::CLONE_FROM_OTHER => self.pristine[cur] = self.pristine[cur] && self.pristine[other],
+            ops::MIRROR_TO_OTHER => self.pristine[other] = false,
+            _ => self.pristine[cur] = false,
+        }
     }
 
     fn c13_track(&mut self) {
